@@ -62,7 +62,41 @@ fn maps(rounds: usize, rng: &mut Lcg) {
         for _ in 0..14 {
             let k = rng.below(4) as u8;
             let v = rng.below(1000) as u32;
-            match rng.below(16) {
+            match rng.below(22) {
+                16 => {
+                    // by-reference iteration, ranges
+                    let ia: Vec<(u8, usize)> = (&ta).into_iter().map(|(k, v)| (*k, v.len())).collect();
+                    let ib: Vec<(u8, usize)> = (&tb).into_iter().map(|(k, v)| (*k, v.len())).collect();
+                    assert_eq!(ia, ib);
+                    let ra: Vec<u8> = ta.range(k..).map(|(k, _)| *k).collect();
+                    let rb: Vec<u8> = tb.range(k..).map(|(k, _)| *k).collect();
+                    assert_eq!(ra, rb, "range from");
+                    let ra: Vec<u8> = ta.range(..=k).rev().map(|(k, _)| *k).collect();
+                    let rb: Vec<u8> = tb.range(..=k).rev().map(|(k, _)| *k).collect();
+                    assert_eq!(ra, rb, "range to, reversed");
+                    for (_, v) in &mut ta { v.push(1) }
+                    for (_, v) in &mut tb { v.push(1) }
+                }
+                17 => assert_eq!(ta.pop_first(), tb.pop_first()),
+                18 => assert_eq!(ta.pop_last(), tb.pop_last()),
+                19 => {
+                    a.retain(|kk, _| *kk != k); b.retain(|kk, _| *kk != k);
+                    assert_eq!(a.get_key_value(&k).map(|(k, v)| (*k, *v)), b.get_key_value(&k).map(|(k, v)| (*k, *v)));
+                }
+                20 => {
+                    assert_eq!(a.remove_entry(&k), b.remove_entry(&k));
+                    let mut ka: Vec<u8> = a.keys().copied().collect(); let mut kb: Vec<u8> = b.keys().copied().collect();
+                    ka.sort(); kb.sort(); assert_eq!(ka, kb);
+                    let mut ia: Vec<(u8, u32)> = (&a).into_iter().map(|(k, v)| (*k, *v)).collect();
+                    let mut ib: Vec<(u8, u32)> = (&b).into_iter().map(|(k, v)| (*k, *v)).collect();
+                    ia.sort(); ib.sort(); assert_eq!(ia, ib);
+                    *a.entry(k).or_insert_with(|| 5) += 1; *b.entry(k).or_insert_with(|| 5) += 1;
+                }
+                21 => {
+                    assert_eq!(sa.remove(&k), sb.remove(&k));
+                    let mut xa: Vec<u8> = (&sa).into_iter().copied().collect(); let mut xb: Vec<u8> = (&sb).into_iter().copied().collect();
+                    xa.sort(); xb.sort(); assert_eq!(xa, xb);
+                }
                 0 | 1 => assert_eq!(a.insert(k, v), b.insert(k, v)),
                 10 => assert_eq!(ta.insert(k, vec![v]), tb.insert(k, vec![v])),
                 11 => assert_eq!(ta.remove(&k), tb.remove(&k)),
